@@ -38,6 +38,27 @@
 #include <stddef.h>
 #include "soxr.h"
 
+/* ThreadSanitizer build ("tsan" variant): the scheduler's own hand-over (a pthread mutex and condition variable) and the monitors'
+ * reads of the library's variables are hidden from ThreadSanitizer, and the lock shim tells it exactly what the real locks would:
+ * acquire on set, release on unset.  ThreadSanitizer's happens-before relation is then the one induced by the library's own
+ * lock operations (plus thread creation), the schedule is deterministic, and every pair of conflicting accesses to the shared
+ * tables that the lock discipline does not order is reported - whatever the timing. */
+#if defined __SANITIZE_THREAD__
+void AnnotateIgnoreReadsBegin(char const *, int); void AnnotateIgnoreReadsEnd(char const *, int);
+void AnnotateIgnoreWritesBegin(char const *, int); void AnnotateIgnoreWritesEnd(char const *, int);
+void AnnotateIgnoreSyncBegin(char const *, int); void AnnotateIgnoreSyncEnd(char const *, int);
+void __tsan_acquire(void *); void __tsan_release(void *);
+#define HIDE_BEGIN() do { AnnotateIgnoreReadsBegin(__FILE__, __LINE__); AnnotateIgnoreWritesBegin(__FILE__, __LINE__); AnnotateIgnoreSyncBegin(__FILE__, __LINE__); } while (0)
+#define HIDE_END() do { AnnotateIgnoreSyncEnd(__FILE__, __LINE__); AnnotateIgnoreWritesEnd(__FILE__, __LINE__); AnnotateIgnoreReadsEnd(__FILE__, __LINE__); } while (0)
+#define TSAN_ACQUIRE(l) __tsan_acquire(l)
+#define TSAN_RELEASE(l) __tsan_release(l)
+#else
+#define HIDE_BEGIN() ((void)0)
+#define HIDE_END() ((void)0)
+#define TSAN_ACQUIRE(l) ((void)0)
+#define TSAN_RELEASE(l) ((void)0)
+#endif
+
 #define MAXT 4
 #define MAXJOBS 4
 #define MAXEV 400000
@@ -234,6 +255,7 @@ void soxr_verif_yield(char const *tag)
 {
   int name, cache;
   if (!managed || me < 0) return;
+  HIDE_BEGIN();
   pthread_mutex_lock(&mu);
   cache = cur_cache[me];
   if (!strcmp(tag, "init:check-passed")) { name = N_CHECK_PASSED; cache = -1; patch_cache_ev[me] = sh->nev; in_init[me] = 1; }
@@ -245,25 +267,28 @@ void soxr_verif_yield(char const *tag)
   else if (!strcmp(tag, "dft:end-as-writer")) name = N_END_WRITER;
   else if (!strcmp(tag, "vr:tables-check-passed")) {
     if (vr_entries++) viol("VR-SECOND-INIT-ENTRY", "thread %ld passed the test fade_coefs[0]==0 although %ld thread(s) had passed it before%.0ld", me, vr_entries - 1, 0);
-    emit(-1, K_VR, N_VR_PASSED, 0); handover(); wait_turn(); pthread_mutex_unlock(&mu); return; }
-  else if (!strcmp(tag, "vr:fade-filled")) { emit(-1, K_VR, N_VR_FILLED, 0); handover(); wait_turn(); pthread_mutex_unlock(&mu); return; }
+    emit(-1, K_VR, N_VR_PASSED, 0); handover(); wait_turn(); pthread_mutex_unlock(&mu); HIDE_END(); return; }
+  else if (!strcmp(tag, "vr:fade-filled")) { emit(-1, K_VR, N_VR_FILLED, 0); handover(); wait_turn(); pthread_mutex_unlock(&mu); HIDE_END(); return; }
   else name = N_OTHER;
   emit(cache, K_YIELD, name, 0);
   handover(); wait_turn();
   pthread_mutex_unlock(&mu);
+  HIDE_END();
 }
 
 static void vr_event(int name)
 {
   if (!managed || me < 0) return;
-  pthread_mutex_lock(&mu); emit(-1, K_VR, name, 0); pthread_mutex_unlock(&mu);
+  HIDE_BEGIN(); pthread_mutex_lock(&mu); emit(-1, K_VR, name, 0); pthread_mutex_unlock(&mu); HIDE_END();
 }
 
 void soxr_verif_init_lock(soxr_verif_lock_t *l, char const *n)
 {
   (void)n;
   if (managed && me >= 0) {
-    int cache, name = lock_id(l, &cache), was_inited = l->inited, was_held = l->held;
+    int cache, name, was_inited, was_held;
+    HIDE_BEGIN();
+    name = lock_id(l, &cache); was_inited = l->inited; was_held = l->held;
     pthread_mutex_lock(&mu);
     cur_cache[me] = cache;
     l->held = 0; l->inited = 1;
@@ -271,6 +296,7 @@ void soxr_verif_init_lock(soxr_verif_lock_t *l, char const *n)
     else if (was_inited) viol("REINIT", "thread %ld initialised lock %ld of cache %ld a second time", me, name, cache);
     emit(cache, K_INIT, name, 0);
     pthread_mutex_unlock(&mu);
+    HIDE_END();
   } else { l->held = 0; l->inited = 1; }
 }
 
@@ -281,6 +307,7 @@ void soxr_verif_set_lock(soxr_verif_lock_t *l, char const *n)
   int cache, name;
   (void)n;
   if (!managed || me < 0) { l->held = 1; return; }
+  HIDE_BEGIN();
   name = lock_id(l, &cache);
   pthread_mutex_lock(&mu);
   cur_cache[me] = cache;
@@ -292,6 +319,8 @@ void soxr_verif_set_lock(soxr_verif_lock_t *l, char const *n)
   blocked[me] = 0; l->held = 1;
   emit(cache, K_GOT, name, 0);
   pthread_mutex_unlock(&mu);
+  HIDE_END();
+  TSAN_ACQUIRE(l);
 }
 
 void soxr_verif_unset_lock(soxr_verif_lock_t *l, char const *n)
@@ -299,6 +328,8 @@ void soxr_verif_unset_lock(soxr_verif_lock_t *l, char const *n)
   int cache, name;
   (void)n;
   if (!managed || me < 0) { l->held = 0; return; }
+  TSAN_RELEASE(l);
+  HIDE_BEGIN();
   name = lock_id(l, &cache);
   pthread_mutex_lock(&mu);
   cur_cache[me] = cache;
@@ -307,6 +338,7 @@ void soxr_verif_unset_lock(soxr_verif_lock_t *l, char const *n)
   emit(cache, K_REL, name, 0);
   if (opt_relswitch) { handover(); wait_turn(); }
   pthread_mutex_unlock(&mu);
+  HIDE_END();
 }
 
 static ref_t *find_ref(char const *spec) { int i; for (i = 0; i < nrefs; ++i) if (!strcmp(refs[i].spec, spec)) return &refs[i]; return 0; }
@@ -315,13 +347,13 @@ static void *thread_main(void *a)
 {
   int j; static float out[MAXT][MAXOUT];
   me = (int)(size_t)a;
-  pthread_mutex_lock(&mu); wait_turn(); pthread_mutex_unlock(&mu);
+  HIDE_BEGIN(); pthread_mutex_lock(&mu); wait_turn(); pthread_mutex_unlock(&mu); HIDE_END();
   for (j = 0; j < prog[me].njobs; ++j) {
     size_t on = 0; ref_t *r = find_ref(prog[me].job[j].spec);
     int err = run_job(&prog[me].job[j], out[me], MAXOUT, &on);
     if (err || !r || !r->valid || on != r->n || memcmp(out[me], r->out, on * sizeof(float))) sh->wrong[me][j] = 1;
   }
-  pthread_mutex_lock(&mu); finished[me] = 1; handover(); pthread_mutex_unlock(&mu);
+  HIDE_BEGIN(); pthread_mutex_lock(&mu); finished[me] = 1; handover(); pthread_mutex_unlock(&mu); HIDE_END();
   return 0;
 }
 
@@ -387,6 +419,9 @@ static void do_line(char const *line)
   }
   memset(sh, 0, offsetof(shared_t, ev));
   fflush(stdout);
+#if defined __SANITIZE_THREAD__
+  fprintf(stderr, "TSANRUN %s\n", r.id); fflush(stderr);
+#endif
   pid = fork();
   if (!pid) {
     /* the child re-parses (prog[] specs now carry the @key suffix used to find the reference) */
